@@ -1,0 +1,51 @@
+//go:build verif
+
+package kfake
+
+import (
+	"io"
+	"os"
+)
+
+// This file exists only in builds with the `verif` tag. It lets an external
+// verification harness substitute the file system that a Cluster persists to
+// (the unexported fs/file interfaces of persist_fs.go), so that the harness can
+// record every file-system operation and restart clusters on simulated crash
+// images. Nothing here changes cluster behavior.
+
+// VerifFile mirrors the unexported file interface.
+type VerifFile interface {
+	io.Writer
+	io.Reader
+	io.Closer
+	Seek(offset int64, whence int) (int64, error)
+	Truncate(size int64) error
+	Sync() error
+}
+
+// VerifFS mirrors the unexported fs interface, with OpenFile returning the
+// exported VerifFile.
+type VerifFS interface {
+	OpenFile(name string, flag int, perm os.FileMode) (VerifFile, error)
+	Rename(oldpath, newpath string) error
+	Remove(name string) error
+	RemoveAll(path string) error
+	MkdirAll(path string, perm os.FileMode) error
+	ReadDir(name string) ([]os.DirEntry, error)
+	ReadFile(name string) ([]byte, error)
+	Stat(name string) (os.FileInfo, error)
+}
+
+type verifFSAdapter struct{ VerifFS }
+
+func (a verifFSAdapter) OpenFile(name string, flag int, perm os.FileMode) (file, error) {
+	f, err := a.VerifFS.OpenFile(name, flag, perm)
+	if err != nil {
+		return nil, err
+	}
+	return f, nil
+}
+
+// VerifWithFS injects f as the cluster's file system (the same injection point
+// as the package's own tests use). Combine with DataDir and SyncWrites.
+func VerifWithFS(f VerifFS) Opt { return withFS(verifFSAdapter{f}) }
